@@ -20,7 +20,7 @@ type fld struct {
 }
 
 type ty struct {
-	k      string // int arr dict struct
+	k      string // int arr dict struct opt
 	elem   *ty
 	name   string // struct name
 	tag    int    // struct tag in the Coq model
@@ -38,13 +38,27 @@ var (
 	tS        = &ty{k: "struct", name: "S", tag: 0, idFun: "idS"}
 	tArrS     = &ty{k: "arr", elem: tS, idFun: "idArrS"}
 	tMapS     = &ty{k: "dict", elem: tS, idFun: "idMapS"}
-	universe  = []*ty{tArrInt, tGrid, tMap, tInner, tArrInner, tS, tArrS, tMapS}
+	// optionals of containers, at every nesting position
+	tOptArrInt    = &ty{k: "opt", elem: tArrInt, idFun: "idOptArrInt"}     // [Int]?
+	tOptInner     = &ty{k: "opt", elem: tInner, idFun: "idOptInner"}       // Inner?
+	tArrOptArrInt = &ty{k: "arr", elem: tOptArrInt, idFun: "idArrOptArr"}  // [[Int]?]
+	tMapOptArr    = &ty{k: "dict", elem: tOptArrInt, idFun: "idMapOptArr"} // {Int: [Int]?}
+	tOptOptArrInt = &ty{k: "opt", elem: tOptArrInt, idFun: "idOptOptArr"}  // [Int]??
+	tOptMap       = &ty{k: "opt", elem: tMap, idFun: "idOptMap"}           // {Int: [Int]}?
+	tP            = &ty{k: "struct", name: "P", tag: 2, idFun: "idP"}      // struct with optional container fields
+	tOptP         = &ty{k: "opt", elem: tP, idFun: "idOptP"}               // P?
+	tArrP         = &ty{k: "arr", elem: tP, idFun: "idArrP"}               // [P]
+	universe      = []*ty{tArrInt, tGrid, tMap, tInner, tArrInner, tS, tArrS, tMapS,
+		tOptArrInt, tOptInner, tArrOptArrInt, tMapOptArr, tOptOptArrInt, tOptMap, tP, tOptP, tArrP,
+		tOptArrInt, tP, tArrOptArrInt} // (optional shapes are drawn more often)
 )
 
 func init() {
 	tInner.fields = []fld{{"v", tInt, "setV"}, {"ys", tArrInt, "setYs"}}
 	tS.fields = []fld{{"n", tInt, "setN"}, {"xs", tArrInt, "setXs"}, {"grid", tGrid, "setGrid"},
 		{"m", tMap, "setM"}, {"inner", tInner, "setInner"}, {"inners", tArrInner, "setInners"}}
+	tP.fields = []fld{{"oxs", tOptArrInt, "setOxs"}, {"oin", tOptInner, "setOin"}, {"om", tMapOptArr, "setOm"},
+		{"ooxs", tOptOptArrInt, "setOoxs"}, {"oarr", tArrOptArrInt, "setOarr"}}
 }
 
 func (t *ty) cad() string {
@@ -55,11 +69,16 @@ func (t *ty) cad() string {
 		return "[" + t.elem.cad() + "]"
 	case "dict":
 		return "{Int: " + t.elem.cad() + "}"
+	case "opt":
+		return t.elem.cad() + "?"
 	}
 	return "C05." + t.name
 }
 
 func (t *ty) container() bool { return t.k != "int" }
+
+// mutable: has operations of its own (an optional is only replaced as a whole, through its parent)
+func (t *ty) mutable() bool { return t.k == "arr" || t.k == "dict" || t.k == "struct" }
 
 const contract = `
 access(all) contract C05 {
@@ -90,6 +109,34 @@ access(all) contract C05 {
         access(all) fun appendXs(_ x: Int) { self.xs.append(x) }
         access(all) fun innerAppendYs(_ x: Int) { self.inner.ys.append(x) }
     }
+    access(all) struct P {
+        access(all) var oxs: [Int]?
+        access(all) var oin: Inner?
+        access(all) var om: {Int: [Int]?}
+        access(all) var ooxs: [Int]??
+        access(all) var oarr: [[Int]?]
+        init(oxs: [Int]?, oin: Inner?, om: {Int: [Int]?}, ooxs: [Int]??, oarr: [[Int]?]) {
+            self.oxs = oxs; self.oin = oin; self.om = om; self.ooxs = ooxs; self.oarr = oarr
+        }
+        access(all) fun setOxs(_ x: [Int]?) { self.oxs = x }
+        access(all) fun setOin(_ x: Inner?) { self.oin = x }
+        access(all) fun setOm(_ x: {Int: [Int]?}) { self.om = x }
+        access(all) fun setOoxs(_ x: [Int]??) { self.ooxs = x }
+        access(all) fun setOarr(_ x: [[Int]?]) { self.oarr = x }
+        // method results: returning self.f is a transfer
+        access(all) fun getOxs(): [Int]? { return self.oxs }
+        access(all) fun getOin(): Inner? { return self.oin }
+        access(all) fun getOoxs(): [Int]?? { return self.ooxs }
+    }
+    access(all) fun idOptArrInt(_ x: [Int]?): [Int]? { return x }
+    access(all) fun idOptInner(_ x: Inner?): Inner? { return x }
+    access(all) fun idArrOptArr(_ x: [[Int]?]): [[Int]?] { return x }
+    access(all) fun idMapOptArr(_ x: {Int: [Int]?}): {Int: [Int]?} { return x }
+    access(all) fun idOptOptArr(_ x: [Int]??): [Int]?? { return x }
+    access(all) fun idOptMap(_ x: {Int: [Int]}?): {Int: [Int]}? { return x }
+    access(all) fun idP(_ x: P): P { return x }
+    access(all) fun idOptP(_ x: P?): P? { return x }
+    access(all) fun idArrP(_ x: [P]): [P] { return x }
     access(all) fun idArrInt(_ x: [Int]): [Int] { return x }
     access(all) fun idGrid(_ x: [[Int]]): [[Int]] { return x }
     access(all) fun idMap(_ x: {Int: [Int]}): {Int: [Int]} { return x }
@@ -138,6 +185,11 @@ func (v *val) cad() string {
 			parts[i] = k.cad()
 		}
 		return "[" + strings.Join(parts, ", ") + "]"
+	case "opt":
+		if len(v.kids) == 0 {
+			return "nil"
+		}
+		return v.kids[0].cad() // implicit wrapping / what log() prints
 	case "dict":
 		if len(v.kids) == 0 {
 			return "{}"
@@ -186,6 +238,11 @@ func (v *val) coq() string {
 			parts[i] = k.coq()
 		}
 		return "arr [" + strings.Join(parts, "; ") + "]"
+	case "opt":
+		if len(v.kids) == 0 {
+			return "onone"
+		}
+		return "osome (" + v.kids[0].coq() + ")"
 	case "dict":
 		parts := make([]string, len(v.kids))
 		for i, k := range v.kids {
@@ -253,6 +310,19 @@ func fromLog(t *ty, n *lib.LogNode) (*val, error) {
 			return &val{t: t, h: n.Int}, nil
 		}
 		return &val{t: t, n: n.Int.Int64()}, nil
+	case "opt":
+		// log() prints an optional as its payload, or nil; Some(nil) is never generated
+		if n.Tag == 'n' {
+			return &val{t: t}, nil
+		}
+		k, err := fromLog(t.elem, n)
+		if err != nil {
+			return nil, err
+		}
+		if t.elem.k == "opt" && len(k.kids) == 0 {
+			return &val{t: t}, nil
+		}
+		return &val{t: t, kids: []*val{k}}, nil
 	case "arr":
 		if n.Tag != 'a' {
 			return bad()
@@ -331,6 +401,8 @@ func locs(root *val, maxDepth int) []loc {
 				walk(k, append(steps, v.keys[i]), fmt.Sprintf("%s[%d]!", suffix, v.keys[i]), v, i, d-1)
 			case "struct":
 				walk(k, append(steps, int64(i)), suffix+"."+v.t.fields[i].name, v, i, d-1)
+			case "opt":
+				walk(k, append(steps, 0), suffix+"!", v, i, d-1)
 			}
 		}
 	}
